@@ -6,6 +6,7 @@
 -/
 import Vlsp.Model.Slice
 import Vlsp.Model.Bump
+import Vlsp.Model.Json
 
 namespace Vlsp
 open Text Slice
@@ -57,6 +58,20 @@ def trimEndChar (c : Char) (t : Text) : Text := (trimStartChar c t.reverse).reve
 
 /-- `text.trim().trim_start_matches('"').trim_end_matches('"')` (package_json.rs, deno_json.rs, cargo_toml.rs) -/
 def unquoteDq (t : Text) : Text := trimEndChar '"' (trimStartChar '"' (trim t))
+
+/-- `json_string_value`, the JSON parsers' reading of a string token (quotes included): a token that contains an escape
+    and is a well-formed JSON string stands for its decoded value (`serde_json::from_str::<String>`), any other token for
+    the text between its quotes -/
+def jsonStr (t : Text) : Text :=
+  let tr := trim t
+  if tr.any (· == '\\') then
+    match tr with
+    | '"' :: body =>
+      match Json.parseStrBody (body.length + 1) body [] with
+      | some (d, []) => d
+      | _ => unquoteDq t
+    | _ => unquoteDq t
+  else unquoteDq t
 
 /-- the YAML parsers' `get_node_text`: both quote characters, double quotes first -/
 def unquoteBoth (t : Text) : Text :=
